@@ -872,6 +872,8 @@ class MultipartReader:
         if self._at_eof:
             return None
         await self._maybe_release_last_part()
+        # _last_part is None in front of every part, only this tells the first.
+        first_part = self._at_bof
         if self._at_bof:
             await self._read_until_first_boundary()
             self._at_bof = False
@@ -884,7 +886,7 @@ class MultipartReader:
         part = await self.fetch_next_part()
         # https://datatracker.ietf.org/doc/html/rfc7578#section-4.6
         if (
-            self._last_part is None
+            first_part
             and self._mimetype.subtype == "form-data"
             and isinstance(part, BodyPartReader)
         ):
